@@ -44,6 +44,7 @@ use crate::{Header, Record};
 /// ```
 pub struct Writer<W> {
     inner: W,
+    buf: Vec<u8>,
 }
 
 impl<W> Writer<W>
@@ -59,7 +60,10 @@ where
     /// let writer = sam::io::Writer::new(Vec::new());
     /// ```
     pub fn new(inner: W) -> Self {
-        Self { inner }
+        Self {
+            inner,
+            buf: Vec::new(),
+        }
     }
 
     /// Returns a reference to the underlying writer.
@@ -139,7 +143,19 @@ where
     /// # Ok::<(), io::Error>(())
     /// ```
     pub fn write_record(&mut self, header: &Header, record: &Record) -> io::Result<()> {
-        write_record(&mut self.inner, header, record)
+        self.write_buffered_record(header, record)
+    }
+
+    // A record is serialized to a buffer first, so that a record that is rejected midway does not
+    // leave a partial line in the output.
+    fn write_buffered_record(
+        &mut self,
+        header: &Header,
+        record: &dyn crate::alignment::Record,
+    ) -> io::Result<()> {
+        self.buf.clear();
+        write_record(&mut self.buf, header, record)?;
+        self.inner.write_all(&self.buf)
     }
 }
 
@@ -156,7 +172,7 @@ where
         header: &Header,
         record: &dyn crate::alignment::Record,
     ) -> io::Result<()> {
-        write_record(&mut self.inner, header, record)
+        self.write_buffered_record(header, record)
     }
 
     fn finish(&mut self, _: &Header) -> io::Result<()> {
